@@ -1275,6 +1275,13 @@ class Engine:
         st.status = "uncaught"
         return None
 
+    def reg_class(self, t):
+        if isinstance(t, (FloatT, VecT)):
+            return "SSE"
+        if isinstance(t, (IntT, PtrT)):
+            return "INTEGER"
+        return "MEMORY/aggregate"
+
     def resolve_callee(self, st, fr, callee):
         if isinstance(callee, Const) and callee.kind == "global":
             return [(st, callee.val)]
@@ -1322,6 +1329,23 @@ class Engine:
             elif name in self.m.funcs:
                 callee_fn = self.m.funcs[name]
                 nf = Frame(callee_fn, ins.dst)
+                # calling convention conformance: a call through a function pointer of another type only works when
+                # every argument travels in the same register class (x86-64 SysV: INTEGER vs SSE) and the counts agree
+                bad = None
+                if len(callee_fn.params) != len(args) and not getattr(callee_fn, "vararg", False):
+                    bad = "%d arguments passed, %d expected" % (len(args), len(callee_fn.params))
+                else:
+                    for i, ((t, pn), a) in enumerate(zip(callee_fn.params, ins.args)):
+                        at = getattr(a, "ty", None)
+                        if at is not None and self.reg_class(at) != self.reg_class(t):
+                            bad = "argument %d is passed as %s but %s expects %s" % (i, self.reg_class(at), name, self.reg_class(t))
+                            break
+                if bad is not None:
+                    s.events.append(("abi-mismatch", name, bad))
+                    s.status = "ub"
+                    s.info = "call of %s through an incompatible function type: %s" % (name, bad)
+                    results.append(s)
+                    continue
                 for (t, pn), a in zip(callee_fn.params, args):
                     nf.regs[pn] = a
                 if ins.op == "invoke":
